@@ -22,11 +22,13 @@ type harnessDef struct {
 	Quick    map[string]int // params for the quick tier
 	Thorough map[string]int // params for the thorough tier (nil: same as quick)
 	Optional []string       // labels that need not be reached
+	Must     []string       // when set: exactly these labels must be reached (others optional)
 	Cfg      func(c *sym.Config)
 	MaxPaths int
 	NoReplay bool // violations cannot be replayed natively (reported as inconclusive)
 	Witness  int
 	OnlyTier string
+	DualTags string // second program (translation validation): run the harness in both, compare emits
 }
 
 type propDef struct {
@@ -360,6 +362,14 @@ func runCheck(pd *propDef, tier string, seed int, verifDir, only string, workers
 		if hd.Cfg != nil {
 			hd.Cfg(&spec.Cfg)
 		}
+		if hd.DualTags != "" {
+			w2, err := cr.world(hd.DualTags)
+			if err != nil {
+				fmt.Fprintln(os.Stderr, "load:", err)
+				return 2
+			}
+			spec.Dual = w2
+		}
 		rep, err := w.Explore(spec)
 		if err != nil {
 			fmt.Fprintln(os.Stderr, "explore:", err)
@@ -408,7 +418,11 @@ func runCheck(pd *propDef, tier string, seed int, verifDir, only string, workers
 		for _, l := range hd.Optional {
 			opt[l] = true
 		}
-		for _, l := range rep.Labels {
+		labels := rep.Labels
+		if len(hd.Must) > 0 {
+			labels = hd.Must
+		}
+		for _, l := range labels {
 			if rep.Asserts[l] == 0 && !opt[l] && !labelKnown(cr, pd.ID, l) {
 				inconclusive = append(inconclusive, fmt.Sprintf("%s: assertion %q was never reached (vacuous)", hd.Name, l))
 			}
@@ -453,7 +467,19 @@ func runCheck(pd *propDef, tier string, seed int, verifDir, only string, workers
 				inconclusive = append(inconclusive, hd.Name+": native replay: "+firstLine(err.Error()))
 				continue
 			}
-			if !reproduced(v, nr) {
+			if strings.HasPrefix(v.Label, "dual:") {
+				nr2, err := cr.runNative(parts[0], hd.DualTags, parts[1], v.Model, params, 60*time.Second)
+				if err != nil {
+					inconclusive = append(inconclusive, hd.Name+": native replay: "+firstLine(err.Error()))
+					continue
+				}
+				same := strings.Join(nr.observes, "|") == strings.Join(nr2.observes, "|") && nr.panicMsg == nr2.panicMsg && nr.returned == nr2.returned
+				if same {
+					inconclusive = append(inconclusive, fmt.Sprintf("%s: dual counterexample for %s did not reproduce natively (both builds agree: %v) - encoding or stub error", hd.Name, v.Label, nr.observes))
+					continue
+				}
+				nr.out = "=== " + tags + " ===\n" + nr.out + "\n=== " + hd.DualTags + " ===\n" + nr2.out
+			} else if !reproduced(v, nr) {
 				inconclusive = append(inconclusive, fmt.Sprintf("%s: counterexample for %s (%s at %s; choices %s) did not reproduce natively (native: returned=%v panic=%q) - encoding or stub error", hd.Name, v.Label, firstLine(v.Msg), v.Site, v.Choices, nr.returned, nr.panicMsg))
 				continue
 			}
@@ -578,7 +604,7 @@ func (cr *checkRun) saveReplay(prop string, hd harnessDef, tags string, params m
 	os.MkdirAll(dir, 0o755)
 	cex := map[string]interface{}{
 		"property": prop, "harness": hd.Name, "tags": tags, "label": v.Label, "site": v.Site, "msg": v.Msg,
-		"values": v.Model, "params": params, "choices": v.Choices, "decisions": v.Decisions,
+		"values": v.Model, "params": params, "dual_tags": hd.DualTags, "choices": v.Choices, "decisions": v.Decisions,
 		"native_output": nr.out,
 	}
 	cj, _ := json.MarshalIndent(cex, "", " ")
@@ -604,6 +630,7 @@ func replayRecorded(dir string) int {
 		Msg      string            `json:"msg"`
 		Values   map[string]uint64 `json:"values"`
 		Params   map[string]int    `json:"params"`
+		DualTags string            `json:"dual_tags"`
 	}
 	if err := json.Unmarshal(raw, &cex); err != nil {
 		fmt.Fprintln(os.Stderr, err)
@@ -625,6 +652,20 @@ func replayRecorded(dir string) int {
 	}
 	fmt.Print(nr.out)
 	v := &sym.Outcome{Label: cex.Label, Site: cex.Site, Msg: cex.Msg}
+	if cex.DualTags != "" {
+		nr2, err := cr.runNative(parts[0], cex.DualTags, parts[1], cex.Values, cex.Params, 60*time.Second)
+		if err != nil {
+			fmt.Fprintln(os.Stderr, err)
+			return 2
+		}
+		fmt.Print(nr2.out)
+		if strings.Join(nr.observes, "|") != strings.Join(nr2.observes, "|") || nr.panicMsg != nr2.panicMsg || nr.returned != nr2.returned {
+			fmt.Printf("VIOLATION property=%s replay=%s\n", cex.Property, dir)
+			return 1
+		}
+		fmt.Println("not reproduced")
+		return 0
+	}
 	if reproduced(v, nr) {
 		fmt.Printf("VIOLATION property=%s replay=%s\n", cex.Property, dir)
 		return 1
